@@ -33,6 +33,12 @@ PINS = {
     "C16_unknown_ids_tolerated": "conforms (TStruct fs fb) (VStruct (l ++ [(id, x)])) = true",
     "C16_doc_attr_refuted": "exists d, rust_string_literal (emit_doc_attr d) <> Some d",
     "C16_doc_attr_fixed": "forall d, rust_string_literal (emit_doc_attr_fixed d) = Some d",
+    "C16_old_new": "wf_ty t_old = true -> wf_ty t_new = true -> evolves_keeping t_old t_new = true -> wf true v = true -> conforms t_new v = true -> serialize e v = Ok bs -> exists x_old bs' x_new bs'', tde_top t_old bs = Ok x_old /\\ tser_top t_old x_old = Ok bs' /\\ tde_top t_new bs' = Ok x_new /\\ tde_top t_new bs = Ok x_new /\\ tser_top t_new x_new = Ok bs'' /\\ de_as_value true bs'' = Ok (norm t_new v)",
+    "C16_old_new_all_fallback": "evolves t_old t_new = true -> all_fallback t_old = true -> wf true v = true -> conforms t_new v = true -> serialize e v = Ok bs -> exists x_old bs' x_new bs'', tde_top t_old bs = Ok x_old /\\ tser_top t_old x_old = Ok bs' /\\ tde_top t_new bs' = Ok x_new /\\ tde_top t_new bs = Ok x_new /\\ tser_top t_new x_new = Ok bs'' /\\ de_as_value true bs'' = Ok (norm t_new v)",
+    "C16_evolves_iff": "forall t_old t_new, evolves t_old t_new = true <-> Evolves t_old t_new",
+    "C16_old_accepts_what_new_accepts": "evolves_keeping t_old t_new = true -> conforms t_new v = true -> conforms t_old v = true",
+    "C16_old_rejects_new_variant": "find_variant vs_old id = None -> serialize e (VEnum id x) = Ok bs -> exists err, tde_top (TEnum vs_old false) bs = Err err",
+    "C16_old_drops_without_fallback": "de_as_value true bs' = Ok (VStruct l') /\\ forall id y, In (id, y) l' -> known_field fs_old id = true",
 }
 SIZES = {
     "quick": dict(main=12, pairs=3, cases=6000, shards=4, batch=40),
@@ -64,7 +70,7 @@ def build_tools(o):
         if not okc:
             o.obligation_broken("cargo build of the derive harness", outc)
             ok = False
-        okb, outb, _ = core.coq_build(["Derive/TDe.v", "Derive/TSer.v", "Derive/Conforms.v"])
+        okb, outb, _ = core.coq_build(["Derive/TDe.v", "Derive/TSer.v", "Derive/Conforms.v", "Derive/Evolve.v"])
         if not okb:
             o.obligation_broken("coq build of the executable derive model", outb)
             return False
@@ -471,7 +477,8 @@ def wire_part(o, tier, seed, built, stats):
     mon_lines = []
     tot = {}
     samples = []
-    spec = {"checked": 0, "not_applicable": 0, "mismatches": []}
+    spec = {"checked": 0, "not_applicable": 0, "mismatches": [], "pairs_checked": 0, "pairs_keeping": 0,
+            "pairs_labelled_KEEPS": 0, "pairs_on_truncated_unfolding": 0}
     for d, a, tp in dirs:
         try:
             c, diffs = core.diff_lines(d + "/cases.txt", d + "/impl.canon.txt", d + "/model.canon.txt")
@@ -493,6 +500,12 @@ def wire_part(o, tier, seed, built, stats):
                     if m:
                         spec["checked"] += int(m.group(1))
                         spec["not_applicable"] += int(m.group(2))
+                        m2 = re.search(r"pairs (\d+) keeping (\d+) keeps_label (\d+) truncated (\d+)", l)
+                        if m2:
+                            spec["pairs_checked"] += int(m2.group(1))
+                            spec["pairs_keeping"] += int(m2.group(2))
+                            spec["pairs_labelled_KEEPS"] += int(m2.group(3))
+                            spec["pairs_on_truncated_unfolding"] += int(m2.group(4))
                     elif l.strip():
                         spec["mismatches"].append(l.strip()[:600])
         except OSError:
@@ -532,10 +545,13 @@ def wire_part(o, tier, seed, built, stats):
         o.obligation_broken("correspondence derive model vs generated types: differ on %d of %d cases" % (ndiff, compared),
                             json.dumps(first[:5])[:3000])
     if spec["mismatches"]:
-        o.obligation_broken("model self-check: the statements accept/reject/typed/re-encodes-to-norm fail on %d canonical "
+        o.obligation_broken("model self-check: the statements accept/reject/typed/re-encodes-to-norm (de cases) or "
+                            "C16_old_new / its hypotheses evolves, all_fallback (pair cases) fail on %d "
                             "inputs" % len(spec["mismatches"]), "\n".join(spec["mismatches"][:5]))
     stats["model_statement_check"] = {"checked": spec["checked"], "not_applicable": spec["not_applicable"],
-                                      "mismatches": len(spec["mismatches"])}
+                                      "mismatches": len(spec["mismatches"]),
+                                      "old_new": {k: spec[k] for k in ("pairs_checked", "pairs_keeping", "pairs_labelled_KEEPS",
+                                                                       "pairs_on_truncated_unfolding")}}
     if tot.get("result_classes", {}).get("pair:SPEC-INCONSISTENT"):
         o.obligation_broken("old/new specification: norm new (norm old v) differs from norm new v although every old type has a fallback", "")
     stats.update({
@@ -572,8 +588,10 @@ def run(tier, seed):
     o.coverage["explanation"] = (
         "partial: compilation is decided by rustc on a corpus; the derive wire contract (accept + re-encode to an "
         "equivalent value, reject, byte-for-byte cycle through fallbacks, totality) is proved on the model and tied to the "
-        "real generated types by differential execution; the old/new clause across two different types is monitored and "
-        "compared, not proved (design/C16.md)")
+        "real generated types by differential execution; the old/new clause across two different types is proved "
+        "(C16_old_new: nested evolution, both encodings), its hypotheses (evolves, all_fallback) and its conclusion are "
+        "evaluated by the extracted model on every generated pair case, and it is monitored on the real generated pairs "
+        "(design/C16.md)")
     stats = {}
     if build_tools(o):
         built, by_name = compile_part(o, tier, seed, stats)
